@@ -12,7 +12,7 @@ class P(StreamProperty):
     theorems = ['C06_points', 'C06_rs_generator_gf8', 'C06_rs_generator_gf4', 'C06_rs_systematic_rows', 'C06_rs_compat',
                 'C06_src_untouched_model', 'C06_null_slot_model', 'C06_rs_encode_function']
     rule = ('encoder sessions, every repair ESI, application-allocated and NULL output slots, identity payloads (the output IS the generator row / '
-            'the equation) and random payloads of lengths 1..40 and 1023..1025: every k for m=4, sampled k for m=8 (all k in thorough), the LDPC grid; GF(2^m) sessions preceded by a session of the other field size with the same (k, r); '
+            'the equation) and random payloads of lengths 1..40, 64, 100 and 1023..1025 in application buffers starting at each of the 8 alignments: every k for m=4, sampled k for m=8 (all k in thorough), the LDPC grid; GF(2^m) sessions preceded by a session of the other field size with the same (k, r); '
             'oracle on the real library: RS rows equal the Lagrange formula computed independently (Python, bit-level field), codec 1 and codec 2 (m=8) give '
             'identical bytes, every LDPC parity equation sums to zero over the produced codeword, sources unchanged, NULL slot replaced by a library buffer; '
             'non-trivial = distinct (codec, k, r, length, payload, slot policy)')
@@ -84,7 +84,7 @@ class P(StreamProperty):
         # random payloads, odd lengths (kernel tails)
         j = 0
         for kind in ('rs8', 'rs2m8', 'rs2m4', 'ldpc'):
-            for ln in list(range(1, 41 if tier == 'thorough' else 18)) + [1023, 1024, 1025]:
+            for ln in list(range(1, 41 if tier == 'thorough' else 18)) + [20, 23, 24, 31, 33, 40, 64, 100, 1023, 1024, 1025]:
                 if kind == 'ldpc':
                     k = rng.randint(2, 40); r = rng.randint(3, 20)
                     cfg = gens.Cfg(kind, k, r, length=ln, N1=3, seed=rng.randint(1, 2 ** 31 - 2), payload='rand', pseed=j)
@@ -92,7 +92,11 @@ class P(StreamProperty):
                     lim = 15 if kind == 'rs2m4' else 30
                     n = rng.randint(2, lim); k = rng.randint(1, n - 1)
                     cfg = gens.Cfg(kind, k, n - k, length=ln, payload='rand', pseed=j)
-                cases.append(gens.encoder_case('rp%d' % j, cfg, slots=rng.choice(['own', 'null', 'mix']))); j += 1
+                c = gens.encoder_case('rp%d' % j, cfg, slots=rng.choice(['own', 'own', 'null', 'mix']))
+                # the application's buffers (source symbols and its own repair slots) start at every alignment in turn; the reference
+                # codeword of the `payload` step is computed in ordinary heap blocks
+                c.lines = [c.lines[0], 'align %d' % (j % 8)] + c.lines[1:] + ['align 0']
+                cases.append(c); j += 1
         # LDPC grid, identity payload
         ks = [1, 2, 3, 5, 8, 12, 31, 32, 33] + ([100, 400] if tier == 'quick' else [100, 1000, 5000])
         for k in ks:
